@@ -895,12 +895,12 @@ class ServiceDiscover:
     ) -> None:
         self.watched_services[service].add(listener)
 
-        for addr, services in self.found_services.store.items():
-            for s in services:
+        # notify immediately: the listener is registered from now on, so a deferred
+        # notification could arrive after a stop for the same service
+        for addr, services in list(self.found_services.store.items()):
+            for s in list(services):
                 if service.matches_service(s):
-                    asyncio.get_event_loop().call_soon(
-                        listener.service_offered, s, addr
-                    )
+                    listener.service_offered(s, addr)
 
     def stop_watch_service(
         self, service: someip.config.Service, listener: ClientServiceListener
@@ -918,9 +918,9 @@ class ServiceDiscover:
     def watch_all_services(self, listener: ClientServiceListener) -> None:
         self.watcher_all_services.add(listener)
 
-        for addr, services in self.found_services.store.items():
-            for s in services:
-                asyncio.get_event_loop().call_soon(listener.service_offered, s, addr)
+        for addr, services in list(self.found_services.store.items()):
+            for s in list(services):
+                listener.service_offered(s, addr)
 
     def stop_watch_all_services(self, listener: ClientServiceListener) -> None:
         self.watcher_all_services.remove(listener)
